@@ -194,6 +194,27 @@ CLAIMS = {
        "negative counts) was found by this check and fixed.",
   technique="Lean 4 theorem proving (induction over the option list) + three-way differential correspondence",
   design="§6 C19"),
+ "C17": dict(
+  text="Machine-checked proof on the model of lib/cfg.c for every history of context operations (create, incref, decref, "
+       "register, clear, read back, report; any number of contexts): a context's state after any history is what its own "
+       "operations made of it (run_local: other contexts and reports have no influence), reading back returns the user "
+       "pointer of the most recent registration on that context, a report reaches exactly that context's current handler "
+       "with its current pointer and unchanged code/text, a cleared handler or the NULL context means the default handler "
+       "with the documented file:line:NAME:text format (names are a regenerated table), reads and reports change nothing, "
+       "a context lives until releases outnumber acquisitions. The library's writable static storage (regenerated from "
+       "the object files by nm) consists only of load-time registries and constant tables (decide). Shared templates of "
+       "multi-key sign/wrap calls are read, never updated (model theorems). Validated, not proved (properties of compiled "
+       "C that no Lean model can exhibit): every read-only entry point and every shared-template call leaves its JSON "
+       "arguments deep-equal and their reference counts unchanged (harness deep-compare on ~10k valid and damaged "
+       "inputs), no writable static region of the library changes across the battery (link-map fingerprints), and the "
+       "battery gives line-for-line the same results on 2/4/8/16 threads under ThreadSanitizer with no race report.",
+  note="Trusted: Lean kernel, standard axioms; model tied to lib/cfg.c by exhaustive short histories + random long ones; "
+       "argument purity, static-storage stability and race freedom are dynamic validation (ASan/TSan builds of the working "
+       "tree), labelled as such; TSan does not see inside OpenSSL/jansson. F3 (get_err_misc returned the handler) was "
+       "found by this check and fixed.",
+  technique="Lean 4 theorem proving (induction over histories) + regenerated static-storage table + instrumented "
+            "differential runs (argument deep-compare, static-region fingerprints, ThreadSanitizer)",
+  design="§6 C17"),
 }
 
 NOT_YET = "check not built yet (framework under construction); will be claimed when its Lean theorems and correspondence exist"
